@@ -7,10 +7,10 @@ expression ``string.whitespace + '<literal>'``):
                     (compared against a template with holes for the two window constants);
                     the find_id_loc call in FuncScope.__init__ and ClassScope.__init__
 * supp/nast.py      the find_id_loc calls in visit_Import / visit_ImportFrom
-* supp/util.py      SOURCE_MARK; the bodies of unmark / marked / split_pkg / join_pkg and the mark
-                    insertion of Source.__init__ (template comparison, no holes)
+* supp/util.py      SOURCE_MARK; the bodies of unmark / marked / split_pkg / join_pkg, of Source.__init__ (mark
+                    insertion) and Source.lines (template comparison); splitlines (template with a hole for the regex)
 * supp/assistant.py the prefix expression ``re.split(<regex>, line)[-1]`` (only r'\\W' is modelled),
-                    the ``from`` branch: its condition strings and the two rpartition separators,
+                    the ``from`` branch: the regex of ``re.match(<regex>, line)`` (one modelled shape) and the rpartition separator,
                     the proposal expression ``sorted(n for n in names if not marked(n))``,
                     the body of ``location`` (its ``loc`` projection un-shifts positions right of the cursor) and ``_loc``
 
@@ -159,7 +159,7 @@ def __init__(self, source, filename=None, position=None):
     self.filename = filename or '<string>'
     if position:
         ln, col = position
-        lines = source.splitlines() or ['']
+        lines = splitlines(source) or ['']
         if ln > len(lines):
             lines.extend([''] * (ln - len(lines)))
         line = lines[ln-1]
@@ -170,15 +170,28 @@ def __init__(self, source, filename=None, position=None):
         self.source = source
 '''
 
+SOURCE_LINES = '''
+def lines(self):
+    return splitlines(self.source) or ['']
+'''
+
+SPLITLINES = '''
+def splitlines(source):
+    lines = re.split(%r, source)
+    if not lines[-1]:
+        lines.pop()
+    return lines
+'''
+
 ASSIST_HEAD = '''
 def assist(project, source, position, filename=None, debug=False):
     source = Source(source, filename, position)
     ctx = EvalCtx(project)
     ln, col = position
     line = source.lines[ln - 1][:col]
-    if line.lstrip().startswith(%r) and %r not in line:
-        iname = line.rpartition(%r)[2]
-        package, sep, prefix = iname.rpartition(%r)
+    from_module = re.match(%r, line)
+    if from_module:
+        package, sep, prefix = from_module.group(1).rpartition(%r)
         if (not package or package.startswith('.')) and sep:
             package += '.'
         return prefix, list_packages(project, package, filename)
@@ -307,30 +320,27 @@ def start_is_np_node(fn, what):
 
 
 def assist_parts(fn):
-    """-> (from_kw, import_kw, sep1, sep2, regex)"""
+    """-> (from_regex, sep2, regex)"""
     body = [s for s in fn.body if not (isinstance(s, ast.Expr) and isinstance(s.value, ast.Constant))]
-    if len(body) < 6 or not isinstance(body[4], ast.If):
+    if len(body) < 7 or not isinstance(body[5], ast.If):
         raise Untranslatable('assist: head is not the modelled shape')
-    iff = body[4]
     try:
-        t = iff.test
-        from_kw = t.values[0].args[0].value
-        import_kw = t.values[1].left.value
-        sep1 = iff.body[0].value.value.args[0].value
-        sep2 = iff.body[1].value.args[0].value
+        from_regex = body[4].value.args[0].value
+        sep2 = body[5].body[0].value.args[0].value
     except (AttributeError, IndexError):
         raise Untranslatable('assist: from-branch is not the modelled shape')
-    for v in (from_kw, import_kw, sep1, sep2):
+    for v in (from_regex, sep2):
         if not isinstance(v, str):
             raise Untranslatable('assist: from-branch constants are not strings')
-    if len(sep1) != 1 or len(sep2) != 1:
-        raise Untranslatable('assist: rpartition separators must be single characters')
-    tmpl = ast.parse(ASSIST_HEAD % (from_kw, import_kw, sep1, sep2)).body[0]
-    if [ast.dump(s) for s in body[:5]] != [ast.dump(s) for s in tmpl.body]:
+    if len(sep2) != 1:
+        raise Untranslatable('assist: the rpartition separator must be a single character')
+    tmpl = ast.parse(ASSIST_HEAD % (from_regex, sep2)).body[0]
+    if [ast.dump(s) for s in body[:6]] != [ast.dump(s) for s in tmpl.body]:
         raise Untranslatable('assist: head (line = ...[:col], from-branch) is not the modelled shape')
+    body = body[:5] + body[5:]
     # the generic prefix
     regex = None
-    for s in body[5:]:
+    for s in body[6:]:
         if isinstance(s, ast.Assign) and len(s.targets) == 1 and isinstance(s.targets[0], ast.Name) \
                 and s.targets[0].id == 'prefix':
             v = s.value
@@ -346,18 +356,38 @@ def assist_parts(fn):
     if regex is None:
         raise Untranslatable('assist: no prefix = re.split(<literal>, line)[-1]')
     # every other return hands back that prefix; the last one filters marked names and sorts
-    rets = [n for s in body[5:] for n in ast.walk(s) if isinstance(n, ast.Return)]
+    rets = [n for s in body[6:] for n in ast.walk(s) if isinstance(n, ast.Return)]
     for r in rets:
         if not (isinstance(r.value, ast.Tuple) and len(r.value.elts) == 2 and ast.unparse(r.value.elts[0]) == 'prefix'):
             raise Untranslatable('assist: a return does not hand back the text prefix: ' + ast.unparse(r))
     if not rets or ast.dump(rets[-1]) != ast.dump(ast.parse(ASSIST_RETURN).body[0]):
         raise Untranslatable('assist: final return is not `%s`' % ASSIST_RETURN)
-    return from_kw, import_kw, sep1, sep2, regex
+    return from_regex, sep2, regex
 
 
 REGEX_SHAPES = {
     # regex literal -> Lean body of `isSep isWord c`
     '\\W': '!isWord c',
+}
+
+
+FROM_REGEX_SHAPES = {
+    # regex literal of `from_module = re.match(<regex>, line)` -> Lean body of `fromModule isWord isSpace line` (group 1 or none).
+    # \\s and [\\w.] are disjoint and 'f' is not whitespace, so the match is unique: all leading whitespace, `from`, all the
+    # whitespace that follows (at least one), and the rest of the line, which must consist of word characters and dots.
+    # (`$` also matches before a final '\\n'; a line never contains one.)
+    '\\s*from\\s+([\\w.]*)$': """\
+  let r := line.dropWhile isSpace
+  if ['f', 'r', 'o', 'm'].isPrefixOf r then
+    let r2 := r.drop 4
+    let m := r2.dropWhile isSpace
+    if m.length < r2.length && m.all (fun c => isWord c || c == '.') then some m else none
+  else none""",
+}
+
+LINE_REGEX_SHAPES = {
+    # regex literal of util.splitlines -> (Lean body of `isLineSep c`, \\r\\n counts as one separator)
+    '\r\n|\r|\n': ("c == '\\r' || c == '\\n'", True),
 }
 
 
@@ -402,9 +432,21 @@ def translate(repo):
     same_body(find_def(util.body, 'marked'), MARKED, 'marked')
     same_body(find_def(util.body, 'join_pkg'), JOIN_PKG, 'join_pkg')
     same_body(find_def(util.body, 'split_pkg'), SPLIT_PKG, 'split_pkg')
-    same_body(find_def(find_def(util.body, 'Source', (ast.ClassDef,)).body, '__init__'), SOURCE_INIT, 'Source.__init__')
+    source_cls = find_def(util.body, 'Source', (ast.ClassDef,))
+    same_body(find_def(source_cls.body, '__init__'), SOURCE_INIT, 'Source.__init__')
+    same_body(find_def(source_cls.body, 'lines'), SOURCE_LINES, 'Source.lines')
+    spl = find_def(util.body, 'splitlines')
+    try:
+        line_regex = [st for st in spl.body if isinstance(st, ast.Assign)][0].value.args[0].value
+    except (AttributeError, IndexError):
+        raise Untranslatable('splitlines: body is not the modelled shape')
+    if not isinstance(line_regex, str) or line_regex not in LINE_REGEX_SHAPES:
+        raise Untranslatable('splitlines: line-separator regex %r is not one of the modelled shapes' % (line_regex,))
+    same_body(spl, SPLITLINES % line_regex, 'splitlines')
 
-    from_kw, import_kw, sep1, sep2, regex = assist_parts(find_def(assistant.body, 'assist'))
+    from_regex, sep2, regex = assist_parts(find_def(assistant.body, 'assist'))
+    if from_regex not in FROM_REGEX_SHAPES:
+        raise Untranslatable('assist: from-branch regex %r is not one of the modelled shapes' % (from_regex,))
     same_body(find_def(assistant.body, 'location'), LOCATION, 'location')
     same_body(find_def(assistant.body, '_loc'), LOC_HELPER, '_loc')
     if regex not in REGEX_SHAPES:
@@ -443,12 +485,18 @@ def translate(repo):
     out.append('    relative to the word-character class `isWord` (Python\'s `\\w` on str) -/')
     out.append('def isSep (isWord : Char → Bool) (c : Char) : Bool := ' + REGEX_SHAPES[regex])
     out.append('')
-    out.append('/-- the `from` branch of assist: `line.lstrip().startswith(fromKw) and importKw not in line` -/')
-    out.append('def fromKw : List Char := ' + lean_chars(from_kw))
-    out.append('def importKw : List Char := ' + lean_chars(import_kw))
-    out.append('/-- ... `iname = line.rpartition(fromSep1)[2]; prefix = iname.rpartition(fromSep2)[2]` -/')
-    out.append('def fromSep1 : Char := ' + lean_char(sep1))
+    out.append('/-- the `from` branch of assist: `from_module = re.match(%r, line)`; the result is `group(1)` of the match, or none.' % from_regex)
+    out.append('    `isSpace` is the class `\\s` of Python\'s `re` on str -/')
+    out.append('def fromModule (isWord isSpace : Char → Bool) (line : List Char) : Option (List Char) :=')
+    out.append(FROM_REGEX_SHAPES[from_regex])
+    out.append('')
+    out.append('/-- ... `package, sep, prefix = from_module.group(1).rpartition(fromSep2)` -/')
     out.append('def fromSep2 : Char := ' + lean_char(sep2))
+    out.append('')
+    out.append('/-- util.splitlines: `re.split(%r, source)`, one trailing empty piece dropped -/' % line_regex)
+    out.append('def isLineSep (c : Char) : Bool := ' + LINE_REGEX_SHAPES[line_regex][0])
+    out.append('/-- the two-character sequence `\\r\\n` is one separator -/')
+    out.append('def crlfIsOne : Bool := ' + ('true' if LINE_REGEX_SHAPES[line_regex][1] else 'false'))
     out.append('')
     out.append('end SuppModel.Text.Generated')
     return '\n'.join(out) + '\n'
